@@ -2,6 +2,7 @@
 # usage: mkmutant.sh <fix-sha> <property> <rule> : writes selftest/mutants/revert-<prop>-<sha>.diff (the fix reverted on top of /repo HEAD)
 sha=$1; prop=$2; rule=$3
 wt=/tmp/wt_confirm
+[ -d $wt ] || git -C /repo worktree add --detach $wt HEAD > /dev/null 2>&1   # scratch worktree, created on demand (remove it afterwards: git -C /repo worktree remove --force $wt)
 git -C $wt checkout -q --detach $(git -C /repo rev-parse HEAD) && git -C $wt reset -q --hard
 if git -C $wt revert --no-commit $sha > /dev/null 2>&1; then
   git -C $wt diff HEAD > /verif/selftest/mutants/revert-$prop-$sha.diff
